@@ -2,11 +2,15 @@
    operation, the projection the harness computed from the real application
    (harness/internal/world: OpObs.V). *)
 From Coq Require Import String Ascii List ZArith NArith Bool.
-From Orbiter Require Export Lib.Str Lib.Res Lib.Val Gen.Constants Model.Ids Model.Env Model.Fee Model.Denom
+From Orbiter Require Export Model.Json Lib.Str Lib.Res Lib.Val Gen.Constants Model.Ids Model.Env Model.Fee Model.Denom
      Model.Payload Model.State Model.Pipeline Model.Msgs.
 Import ListNotations.
 Open Scope string_scope.
 Open Scope Z_scope.
+
+(* the memo of a packet: the document as written, decoded by the model's own decoder (Model/Json.v);
+   [ints]: the real integer parser on the document's non-canonical strings *)
+Definition jmemo (ints : list (string * option Z)) (t : json) : res payload := decode_memo (env_of [] ints) t.
 
 Record world_case := {
   wc_orbiter : string;                              (* account bytes, hex *)
